@@ -635,6 +635,32 @@ def with_repeated_tunnel_subtlv(body):
     return body[:2 + wl] + len(out).to_bytes(2, 'big') + out + body[start + al:]
 
 
+def with_repeated_tunnel_tlv(body):
+    """an UPDATE body whose TUNNEL_ENCAP (23) attribute holds tunnel TLVs: the same with its first tunnel TLV written
+    twice (RFC 9012 section 2 allows several TLVs of one tunnel type); a body without the attribute gets one made of
+    two TLVs of the unassigned tunnel type 99 -> new body"""
+    wl = int.from_bytes(body[0:2], 'big')
+    al = int.from_bytes(body[2 + wl:4 + wl], 'big')
+    start = 4 + wl
+    attrs, out, i, done = body[start:start + al], b'', 0, False
+    while i < len(attrs):
+        flag, code = attrs[i], attrs[i + 1]
+        if flag & 0x10:
+            ln, hd = int.from_bytes(attrs[i + 2:i + 4], 'big'), 4
+        else:
+            ln, hd = attrs[i + 2], 3
+        val = attrs[i + hd:i + hd + ln]
+        if code == 23 and len(val) >= 4 and not done:
+            first = val[:4 + int.from_bytes(val[2:4], 'big')]
+            val = first + val
+            done = True
+        out += attr(flag & ~0x10, code, val)
+        i += hd + ln
+    if not done:
+        out += attr(0xC0, 23, bytes([0, 99, 0, 1, 0xAA, 0, 99, 0, 1, 0xBB]))
+    return body[:2 + wl] + len(out).to_bytes(2, 'big') + out + body[start + al:]
+
+
 def mutate_body(rng, body):
     b = bytearray(body)
     k = rng.choice(['flip', 'flip', 'byte', 'byte', 'insert', 'delete', 'swap'])
@@ -745,9 +771,13 @@ class Judge:
                 keys, _, where = tag[1].partition('@')
                 # one finding, one name: a repeated key inside the TUNNEL_ENCAP attribute object is the repeated sub-TLV
                 # defect whatever message drew it (built case, configured route, byte mutant); elsewhere the event kind names it
-                if '/attribute/tunnel-encap' in where:
+                if where.rstrip('/').endswith('/attribute/tunnel-encap'):
+                    # members of the attribute object itself: one per tunnel TLV (RFC 9012 2: several TLVs of one
+                    # tunnel type are legal)
+                    dkind = 'update-tunnel-encap-repeated-tunnel'
+                elif '/attribute/tunnel-encap' in where:
                     dkind = 'update-tunnel-encap-repeated-subtlv'
-                elif kind == 'update-tunnel-encap-repeated-subtlv':
+                elif kind in ('update-tunnel-encap-repeated-subtlv', 'update-tunnel-encap-repeated-tunnel'):
                     dkind = 'update-tunnel-encap-case-elsewhere'
                 else:
                     dkind = kind
@@ -1333,6 +1363,20 @@ def check(tier, seed):
             outcomes[f'update-tunnel-encap-repeated-subtlv:{oc[0]}'] += 1
             for ev in evs:
                 judge.judge(ev)
+        n_rep = 0
+        for kind, nb, neg_in, body in confs:
+            if 'announce' not in kind or n_rep >= 8:
+                continue
+            try:
+                rep = with_repeated_tunnel_tlv(body)
+            except Exception:
+                continue
+            n_rep += 1
+            impl.neighbors['_conf'] = (nb, neg_in)
+            evs, oc = message_events(impl, '_conf', 2, rep, 'update-tunnel-encap-repeated-tunnel', {'neighbor': 'from ' + kind.split(':', 1)[1]})
+            outcomes[f'update-tunnel-encap-repeated-tunnel:{oc[0]}'] += 1
+            for ev in evs:
+                judge.judge(ev)
         n_mut = (40 if thorough else 6)
         mut_pool = [(k, nk, b, c) for k, nk, b, c in bodies] + [(k, ('_c', nb, ng), b, 2) for k, nb, ng, b in confs]
         for kind, nk, body, code in mut_pool:
@@ -1503,6 +1547,8 @@ def check(tier, seed):
     })
     for text in judge.json_lines[:3]:
         run.samples.append({'json_event': text[:400]})
+    from harness import wqueue
+    wqueue.run_pass(run, tier, seed)  # "written to the pipe ... exactly one record": the API write queue under partial writes
     if run.broken() and not run.failing:
         run.coverage['search'] = f'{n_events} events x 4 encoders judged by the strict checker; none failed'
     return run.finish(level='proof-partial', checker_cmd='make -C coq props/Prop_C13.vo && coqc -Q coq ExaV coq/props/Prop_C13.v (Print Assumptions)')
